@@ -382,6 +382,11 @@ def finish(ctx, acc, rule, level="exploration", exhaustive=False, assumptions=()
     }
     if acc.n < 1 or len(acc.nt) < 2:
         raise HarnessError("vacuous run: evaluations={} nontrivial={}".format(acc.n, len(acc.nt)))
+    if os.environ.get("QAV_NO_EVIDENCE"):
+        # sensitivity runs against scratch copies must not overwrite evidence / replays of /repo
+        print("{} (scratch run, evidence not written) evaluations={} nontrivial={} violations={}".format(
+            ctx.pid, acc.n, len(acc.nt), nviol))
+        return 1 if nviol else 0
     os.makedirs(os.path.join(VERIF, "evidence"), exist_ok=True)
     tmp = os.path.join(VERIF, "evidence", ctx.pid + ".json.tmp")
     with open(tmp, "w", encoding="utf-8") as fd:
